@@ -1,2 +1,3 @@
 //! Reference implementations used as oracles (written from the literature, independent of bacon).
 pub mod num;
+pub mod rational;
